@@ -189,6 +189,40 @@ static void chains(vt::rng& g, int nchains, int len)
     }
 }
 
+// many dimensions: the weight of a point is the product over the dimensions of bins x bin width (each factor of order one), whatever
+// bins^dimensions or the product of the widths alone would be
+template <typename T>
+static void highdim_points(std::size_t d, std::size_t B, bool narrow, vt::rng& g)
+{
+    hep::vegas_pdf<T> pdf(d, B);
+    if (narrow)
+        for (std::size_t j = 0; j != d; ++j)
+            for (std::size_t b = 1; b != B; ++b) pdf.set_bin_left(j, b, std::ldexp(T(b), -10)); // B - 1 bins of width 2^-10, one wide bin
+    long long bad = 0, points = 0, nonfinite = 0;
+    auto fn = [&](hep::vegas_point<T> const& p) {
+        long double ref = 1.0L;
+        bool inside = true;
+        for (std::size_t j = 0; j != d; ++j)
+        {
+            std::size_t b = p.bin()[j];
+            long double l = pdf.bin_left(j, b), r = pdf.bin_left(j, b + 1);
+            ref *= (long double) B * (r - l);
+            inside = inside && l <= p.point()[j] && p.point()[j] <= r;
+        }
+        ++points;
+        if (!std::isfinite(p.weight())) ++nonfinite;
+        // only where the reference is a normal number of T (the product itself may legitimately leave the range of T)
+        if (ref > (long double) std::numeric_limits<T>::min() * 4 && ref < (long double) std::numeric_limits<T>::max() / 4)
+            if (!inside || !(std::fabs((long double) p.weight() - ref) <= (2.0L * d + 4) * std::numeric_limits<T>::epsilon() * ref)) ++bad;
+        return T(1);
+    };
+    auto chk = hep::make_vegas_chkpt<T>(pdf, T(1.5), std::mt19937((unsigned) g.below(100000)));
+    using C = decltype(chk);
+    hep::vegas(hep::make_integrand<T>(fn, d), std::vector<std::size_t>{40}, chk, hep::callback<C>(hep::callback_mode::silent));
+    vt::ev("PointHD").s("T", vt::type_name<T>::get()).i("d", (long long) d).i("B", (long long) B).i("narrow", narrow ? 1 : 0).i("points", points)
+        .i("bad", bad).i("nonfinite", narrow ? 0 : nonfinite).emit();
+}
+
 // real runs on sharply peaked integrands: every sampled point lies in its bin with weight B * width
 template <typename T>
 static void real_run(int run, vt::rng& g, int iters)
@@ -302,6 +336,12 @@ int main(int argc, char** argv)
     chains<long double>(g, thorough ? 40 : 8, thorough ? 200 : 40);
     for (int run = 0; run != (thorough ? 24 : 6); ++run)
     {
+        if (run == 0)
+        {
+            highdim_points<float>(8, 128, false, g); highdim_points<float>(19, 128, false, g); highdim_points<float>(40, 128, false, g);
+            highdim_points<float>(12, 8, true, g); highdim_points<double>(50, 128, false, g); highdim_points<double>(110, 1024, false, g);
+            highdim_points<double>(160, 128, false, g); highdim_points<double>(100, 16, true, g); highdim_points<long double>(200, 512, false, g);
+        }
         if (run % 3 == 0) real_run<float>(run, g, 6); else if (run % 3 == 1) real_run<double>(run, g, 6); else real_run<long double>(run, g, 6);
     }
     vt::out().close();
